@@ -115,6 +115,9 @@ func verify(f *os.File, opts signers.VerifyOpts) ([]*signers.Signature, error) {
 		return nil, err
 	}
 	root := doc.Root()
+	if root == nil {
+		return nil, errors.New("signature part has no root element")
+	}
 	// basic verification of XML
 	xs, err := xmldsig.Verify(root, ".", certs)
 	if err != nil {
